@@ -134,6 +134,11 @@ T = [
      "        if (self.predicate)(&event, cli) {\n            self.left.handle_event(event, &cli.left).await;\n        } else {", "        if (self.predicate)(&event, cli) {\n            self.left.handle_event(event.clone(), &cli.left).await;\n        }\n        {"),
     ("c13_tee_write_left_only", "C13/R3", "src/writer/tee.rs",
      "        future::join(self.left.write(val.clone()), self.right.write(val)).await;", "        self.left.write(val.clone()).await;\n        drop(val);"),
+    ("c13_fail_on_skipped_declared_non_transforming", "C13/R4", "src/writer/fail_on_skipped.rs",
+     "#[warn(clippy::missing_trait_methods)]\nimpl<Wr: writer::Normalized, F> writer::Normalized for FailOnSkipped<Wr, F> {}",
+     "#[warn(clippy::missing_trait_methods)]\nimpl<Wr: writer::Normalized, F> writer::Normalized for FailOnSkipped<Wr, F> {}\n\nimpl<Wr: writer::NonTransforming, F> writer::NonTransforming\n    for FailOnSkipped<Wr, F>\n{\n}"),
+    ("c13_tee_non_transforming_unconditionally", "C13/R4", "src/writer/tee.rs",
+     "impl<L, R> writer::NonTransforming for Tee<L, R>\nwhere\n    L: writer::NonTransforming,\n    R: writer::NonTransforming,\n{\n}", "impl<L, R> writer::NonTransforming for Tee<L, R>\nwhere\n    L: writer::NonTransforming,\n{\n}"),
     # ---- C10
     ("c10_world_new_outside_catch", "C10/R1", B,
      "                match AssertUnwindSafe(async { W::new().await })\n                    .catch_unwind()\n                    .then_yield()\n                    .await\n                {\n                    Ok(Ok(w)) => w,",
